@@ -28,7 +28,7 @@ func init() {
 			"masks are generated only for glyphs with at least one stem and with ceil(n/8) mask bytes",
 			"glyphs whose stems need several stem operators per direction are compared with t2interp's stem values for information only (multi-operator stem semantics), and with cff.Read as the judge",
 			"fractional widths of magnitude >= 10000 are multiples of 1/4 (a 9-digit DICT real resolves 2^-16 only below 10^4)",
-			"widths: max-min < 32000 within a font in the main strata; stratum wide-widths covers ranges up to 65000 (a nominal width exists), also with negative widths",
+			"widths: max-min < 32000 within a font in the main strata (including fonts whose widths sit at +-32767 / +-32767.5 - the limit for default-width candidates -, fonts whose most frequent width is negative, fonts with only negative widths and fonts with all widths below -32767); stratum wide-widths covers ranges up to 65000 (a nominal width exists), also with negative widths down to -64767 and with non-empty paths",
 			"cffmini and t2interp (own code from TN5176/TN5177) are right where they agree with cff.Read or x/image",
 		},
 	}, runC04)
@@ -530,9 +530,70 @@ func c04widths(r *rand.Rand, n int, k *mon.Case) []float64 {
 			return float64(r.IntN(2000))
 		}
 	}
-	pat := r.IntN(12)
+	pat := r.IntN(16)
 	mode := r.IntN(6)
 	switch pat {
+	case 12: // around the threshold |w| = 32767 above which a width is no candidate for the default width
+		sign := 1.0
+		if r.IntN(2) == 0 {
+			sign = -1
+		}
+		pool := []float64{32767, 32767.5, 32766.75, 32768, 32766, 32767.25, 32769.5, 32760}
+		dom := pool[r.IntN(4)] * sign // the most frequent width: exactly at / just beyond the threshold
+		for i := range w {
+			w[i] = dom
+			if r.IntN(3) == 0 {
+				w[i] = pool[r.IntN(len(pool))] * sign
+			}
+		}
+		if n > 3 && r.IntN(2) == 0 {
+			// a runner-up on the other side of the threshold
+			o := pool[r.IntN(len(pool))] * sign
+			w[r.IntN(n)], w[r.IntN(n)] = o, o
+		}
+		k.Class("widths:at-default-candidate-threshold")
+		if sign < 0 {
+			k.Class("widths:at-default-candidate-threshold:negative")
+		}
+	case 13: // the most frequent width is negative
+		v := -val(mode) - 1
+		for i := range w {
+			w[i] = v
+			if r.IntN(4) == 0 {
+				w[i] = val(r.IntN(6)) * []float64{1, -1}[r.IntN(2)]
+			}
+		}
+		k.Class("widths:negative-dominant")
+	case 14: // all widths negative
+		base := -val(mode) - 1
+		for i := range w {
+			switch r.IntN(3) {
+			case 0:
+				w[i] = base
+			case 1:
+				w[i] = base - float64(r.IntN(150))
+			default:
+				w[i] = -val(r.IntN(6)) - 1
+			}
+		}
+		k.Class("widths:all-negative")
+	case 15: // widths below -32767 (no candidates for the default width), limited range
+		base := -float64(32768 + r.IntN(20000))
+		for i := range w {
+			w[i] = base - float64(r.IntN(5000))
+			if r.IntN(4) == 0 {
+				w[i] -= []float64{0.5, 0.25, 0.75}[r.IntN(3)]
+			}
+		}
+		if r.IntN(2) == 0 {
+			w[r.IntN(n)] = base
+			w[r.IntN(n)] = base
+		}
+		if r.IntN(4) == 0 {
+			w[r.IntN(n)] = -32767.5
+			w[r.IntN(n)] = -32767
+		}
+		k.Class("widths:below--32767")
 	case 0: // all equal
 		v := val(mode)
 		for i := range w {
@@ -997,15 +1058,29 @@ func runC04(c *mon.Ctx) {
 		span := float64(33000 + r.IntN(32000))
 		if r.IntN(2) == 0 {
 			lo = -float64(r.IntN(32001))
+			if r.IntN(3) == 0 {
+				lo = -float64(32768 + r.IntN(32000)) // the lower end below -32767: also the upper end may be negative
+				k.Class("wide-widths:below--32767")
+			}
 			k.Class("wide-widths:negative")
 		}
 		mid := r.IntN(3) == 0 // some widths in between pull the mean around
+		withPaths := r.IntN(2) == 0
+		var infos []c04info
+		if withPaths {
+			infos = make([]c04info, n)
+			k.Class("wide-widths:with-paths")
+		}
 		for i := range glyphs {
 			name := fmt.Sprintf("w%d", i)
 			if i == 0 {
 				name = ".notdef"
 			}
-			glyphs[i] = &cff.Glyph{Name: name, Width: lo + float64(r.IntN(300))}
+			glyphs[i] = &cff.Glyph{Name: name}
+			if withPaths {
+				glyphs[i], infos[i] = c04glyph(r, name, []string{"random", "mixline", "hvline", "empty"}[r.IntN(4)], 0, r.IntN(3), r.IntN(4) == 0)
+			}
+			glyphs[i].Width = lo + float64(r.IntN(300))
 			switch {
 			case r.IntN(5) == 0:
 				glyphs[i].Width = lo + span - float64(r.IntN(300))
@@ -1022,13 +1097,15 @@ func runC04(c *mon.Ctx) {
 			}
 			k.Class("wide-widths:mean-near-one-end")
 		}
-		c04check(k, glyphs, nil, true, "wide-widths:")
+		c04check(k, glyphs, infos, true, "wide-widths:")
 	})
 
 	req := []string{"stack-depth-48", "width:explicit", "width:omitted", "width:fractional-default", "width:fractional-nominal",
 		"num:int1", "num:int2", "num:int3", "num:fixed16.16", "stems:1-24", "stems:25-48", "stems:49-95", "stems:96", "glyph:with-masks",
 		"stems:multi-operator", "stems:single-operator", "ximage-agrees", "enum:hv-runs-1..60x2", "enum:hv-chains-1..13x2x2",
-		"widths:all-equal", "widths:dominant", "widths:distinct", "widths:narrow-cluster", "widths:single-outlier", "widths:fractional-cluster", "widths:large", "widths:above-32767", "widths:skewed", "wide-widths:negative", "wide-widths:mean-near-one-end"}
+		"widths:all-equal", "widths:dominant", "widths:distinct", "widths:narrow-cluster", "widths:single-outlier", "widths:fractional-cluster", "widths:large", "widths:above-32767", "widths:skewed", "wide-widths:negative", "wide-widths:mean-near-one-end",
+		"widths:at-default-candidate-threshold", "widths:at-default-candidate-threshold:negative", "widths:negative-dominant", "widths:all-negative", "widths:below--32767",
+		"wide-widths:with-paths", "wide-widths:below--32767"}
 	for _, n := range c04opNames {
 		req = append(req, "op:"+n)
 	}
